@@ -252,6 +252,13 @@ def replay_value(suite, p, doc, cli, hdr, v, d, make_query):
         reproduced = misbehaved
     else:
         reproduced = misbehaved or got[0] != exp
+    if not reproduced and any('unassigned' in str(b) for b in bads):
+        # an uninitialised read need not change the result: ask valgrind whether the emitted code uses one
+        hit, ex = RP.valgrind_uninit(d)
+        info['valgrind'] = ex
+        if hit:
+            reproduced, misbehaved = True, True
+            info['actual'] += ' | valgrind: use of uninitialised value inside the emitted function'
     info['summary'] = 'emitted function misbehaves' if misbehaved else 'emitted function returns a value other than the source expression denotes'
     info['site'] = 'eval function'
     return reproduced, info
